@@ -34,7 +34,9 @@ TRUSTED = ["Coq 8.16.1 kernel",
            "compression and chunking are transparent -- properties C01/C04/C05), DFKconvert per component "
            "(a bijection with inverse; property C06), metadata records of GRend (tied by reopen correspondence only), "
            "int32 width of offsets (images kept small)"]
-ASSUMPTIONS = ["host is little-endian", "regions lie inside the image (GRwriteimage/GRreadimage do not check this)",
+ASSUMPTIONS = ["host is little-endian", "every generated history except the rejected-argument ones is in the domain: a "
+               "'nodomain' answer of the specification on any other history, or a number type that never reaches the "
+               "comparison, is reported as a violation of the check itself (no-failing-input-found)", "regions lie inside the image (GRwriteimage/GRreadimage do not check this)",
                "the FillValue attribute is set before the image is made chunked / first written",
                "DFNT_NATIVE number types are outside the domain (their file representation is machine-dependent)",
                "an image receives its first write in the session that created it (a partial first write in a later "
@@ -254,6 +256,7 @@ def gen_conv_history(r, hid, stats, pair=None):
 
 def gen_malformed_history(r, hid, stats):
     ops = ["H %d" % hid]
+    MALFORMED_IDS.add(ops[0])
     im = Img(r, 0, small=True)
     ops.append(op_create(im))
     ops.append(op_write(r, im, (0, 0, 1, 1, im.x, im.y)))
@@ -564,7 +567,7 @@ def parse_ms(line):
 
 def compare_history(h, r_lines, ms_lines):
     """-> (rs_mismatch or None, rm_mismatch or None, ncompared, ntransfer).  A mismatch is (index, op line, r, m, s)."""
-    rs = rm = None
+    rs = rm = nodom = None
     ncmp = ntr = 0
     for i, opline in enumerate(h):
         if i >= len(ms_lines):
@@ -578,7 +581,11 @@ def compare_history(h, r_lines, ms_lines):
         if op == "P" and rres.startswith("ok 3 3 "):
             rres = "ok 3 21 " + rres[7:]      # DFNT_UCHAR8 and DFNT_UINT8 are the same 8-bit palette type
         if sres == "nodomain":
-            break                # the rest of this history is outside the property's domain
+            # outside the property's domain: nothing more is compared in this history.  Only the rejected-argument
+            # histories are meant to get here; for every other generated history this is a defect of the check
+            # (a silently shrinking domain) and is reported by check_batch.
+            nodom = (i, opline, rres, mres, sres)
+            break
         if op == "H":
             continue
         if sres != "-":
@@ -594,6 +601,7 @@ def compare_history(h, r_lines, ms_lines):
             rtr = mtr = None     # special storage: the trace is not part of the model
         if (rres != mres or ((rtr is not None or mtr is not None) and (rtr or "") != (mtr or ""))) and rm is None:
             rm = (i, opline, rres + (" |" + rtr if rtr is not None else ""), mres + (" |" + mtr if mtr is not None else ""), sres)
+    compare_history.last_nodomain = nodom
     return rs, rm, ncmp, ntr
 
 
@@ -660,12 +668,25 @@ def replay_text(h, mis, R, MS, note):
     return "\n".join(txt + h)
 
 
+MALFORMED_IDS = set()
+nodom_first = [None]
+
+
 def check_batch(ctx, hists, tag, stats):
     R, MS, crashes = run_hist_file(ctx, hists, tag)
     rm_first = None
     for n, h in enumerate(hists):
         r_lines = R[n] if n < len(R) else []
         rs, rm, ncmp, ntr = compare_history(h, r_lines, MS[n])
+        nodom = compare_history.last_nodomain
+        if nodom is not None:
+            stats["nodomain_histories"] += 1
+            if not any(l.startswith("#malformed") for l in h[:1]) and h[0] not in MALFORMED_IDS and nodom_first[0] is None:
+                nodom_first[0] = (h, nodom)
+        for l in h:
+            t = l.split()
+            if t[0] == "C" and nodom is None:
+                stats["compared_nt_%s" % t[5]] += 1
         stats["histories"] += 1
         stats["ops"] += len(h)
         stats["compared_results"] += ncmp
@@ -731,6 +752,16 @@ def run(ctx):
                       replay_text(h, rm, None, None, "R equals S everywhere explored, R differs from M "
                                   "(theorems region_refines_image / first_write_fills_image / il_walk_eq_index "
                                   "are about a model that no longer matches)"), found=False)
+    if nodom_first[0] is not None and not any(v["found"] for v in ctx.violations):
+        h, nd = nodom_first[0]
+        ctx.violation("the specification left its domain on a history the generator means to be in-domain (the check "
+                      "would silently stop comparing this class of inputs) at '%s'" % nd[1][:60],
+                      replay_text(h, nd, None, None, "S answered nodomain on an in-domain history: defect of the check "
+                                  "(model of the domain), not of the library"), found=False)
+    starved = [nt for nt in ([b for b in NTS] + [b | LITEND for b in NTS]) if stats["compared_nt_%d" % nt] == 0]
+    if starved and not ctx.violations:
+        ctx.violation("number types never compared in this run (starved generator or shrunken domain): %s" % starved,
+                      "# C09: no history with these number types reached the comparison: %s" % starved, found=False)
     d = dict(gstats)
     d.update(stats)
     ctx.corr("GR~model~spec", **d)
